@@ -417,7 +417,10 @@ def claim_bodies():
     return [("object", b'{"a":1}'), ("empty", b""), ("not-utf8", b"\xff\xfe{}"), ("truncated-json", b'{"a":'), ("array", b"[1]"), ("string", b'"s"'),
             ("number", b"1"), ("null", b"null"), ("true", b"true"), ("nan", b"NaN"), ("deep", b"[" * 100000 + b"]" * 100000), ("dup-keys", b'{"a":1,"a":2}'),
             ("big-int", b'{"exp":' + b"9" * 5000 + b"}"), ("utf8-bom", b"\xef\xbb\xbf{}"), ("surrogate", b'{"a":"\\ud800"}'), ("nul", b'{"a":"\\u0000"}\x00'),
-            ("utf16", '{"a":1}'.encode("utf-16"))]
+            ("utf16", '{"a":1}'.encode("utf-16")),
+            # numbers that Python reads as infinity or as integers beyond the double range, where a NumericDate is expected and elsewhere
+            ("exp-1e999", b'{"exp":1e999}'), ("nbf-minus-1e999", b'{"nbf":-1e999,"iat":1E+400}'), ("exp-Infinity", b'{"exp":Infinity}'), ("iat-NaN", b'{"iat":NaN}'),
+            ("exp-huge-int", b'{"exp":' + b"9" * 400 + b"}"), ("nested-1e999", b'{"a":{"exp":1e999},"b":[-1e999]}')]
 
 
 def h_inner(ctx):
